@@ -42,7 +42,7 @@ var caseRe = regexp.MustCompile(`case (-?\d+):\s*\n\s*conv = (\d+);?`)
 
 func (c11) Run(seed int64, tier string, idx int) Outcome {
 	r := caseRng(seed, "C11", idx)
-	g := gen.Rich(r, gen.RichCfg{Names: idx%2 == 1, IntTags: true})
+	g := gen.Rich(r, gen.RichCfg{Names: idx%2 == 1, IntTags: true, EOFAlias: true})
 	g.NoAction = true
 	var opts render.Options
 	if idx%3 == 0 {
@@ -64,7 +64,16 @@ func (c11) Run(seed int64, tier string, idx int) Outcome {
 	G := b.Root.G
 	codes := map[int]string{}
 	nExp, nLit, nAuto := 0, 0, 0
+	aliases := 0
 	for _, t := range g.Tokens {
+		if t.IsEOFAlias() {
+			aliases++
+			id := b.Root.GetIdsymtabl()[t.Name]
+			if id == nil || id.Value != -1 {
+				return fail("end-marker alias %s does not keep the number -1", t.Name)
+			}
+			continue
+		}
 		sy := G.SymbolsMap[t.YName()]
 		if sy == nil {
 			return fail("token %s missing from the symbol table", t.Src())
@@ -99,7 +108,7 @@ func (c11) Run(seed int64, tier string, idx int) Outcome {
 			nTerm++
 		}
 	}
-	if nTerm != len(g.Tokens)+1 {
+	if nTerm != len(g.Tokens)-aliases+1 {
 		return fail("yaccgo has %d terminals, the specification has %d tokens (+ end marker)", nTerm, len(g.Tokens))
 	}
 	if G.Symbols[1].Name != "$" || G.Symbols[1].Value != -1 {
@@ -149,6 +158,14 @@ func (c11) Run(seed int64, tier string, idx int) Outcome {
 			v, ok := consts[t.Name]
 			if !ok {
 				return fail("%s output has no constant for token %s", lang, t.Name)
+			}
+			if t.IsEOFAlias() {
+				if v != -1 {
+					return fail("%s output: const %s = %d, declared as -1", lang, t.Name, v)
+				}
+				delete(consts, t.Name)
+				o.count("eof_alias_constants_checked", 1)
+				continue
 			}
 			if v != G.SymbolsMap[t.Name].Value {
 				return fail("%s output: const %s = %d, the token's code is %d", lang, t.Name, v, G.SymbolsMap[t.Name].Value)
